@@ -135,7 +135,11 @@ func verifRoot() string {
 }
 
 func loadKnownFindings() []KnownFinding {
-	b, err := os.ReadFile(filepath.Join(verifRoot(), "known_findings.json"))
+	home := os.Getenv("VERIF_HOME")
+	if home == "" {
+		home = verifRoot()
+	}
+	b, err := os.ReadFile(filepath.Join(home, "known_findings.json"))
 	if err != nil {
 		return nil
 	}
